@@ -128,9 +128,42 @@ except BaseException as e:
     return dict(reproduced=bool(violated), violated=violated[:3], observed=seen)
 
 
+def prefix_cache_inherited_case(case):
+    """C13 over histories: which trait governs a name in a class must not depend on whether the name was ever used on an
+    instance of a base class before the class was defined."""
+    import subprocess
+    prog = r"""
+import sys
+from traits.api import HasTraits, Int, TraitError
+class A(HasTraits):
+    pass
+if sys.argv[1] == "touch":
+    a = A(); a.foo = 1
+class B(A):
+    f_ = Int
+b = B()
+try:
+    b.foo = "not an int"
+    print("RESULT accepted")
+except TraitError:
+    print("RESULT TraitError")
+"""
+    res = {}
+    for mode in ("notouch", "touch"):
+        p = subprocess.run([sys.executable, "-c", prog, mode], capture_output=True, text=True, timeout=60)
+        res[mode] = ([l for l in p.stdout.splitlines() if l.startswith("RESULT")] or ["rc=%d" % p.returncode])[-1]
+    violated = []
+    if res["touch"] != res["notouch"]:
+        violated.append("class B(A): f_ = Int; B().foo = 'not an int' gives %r, but %r when an instance of A had its undeclared "
+                        "attribute foo assigned before B was defined (the Python trait cached in A's class traits is inherited by B "
+                        "and shadows B's own prefix trait)" % (res["notouch"], res["touch"]))
+    return dict(reproduced=bool(violated), violated=violated, observed=res)
+
+
 def main():
     case = json.loads(sys.stdin.read())
-    out = {"get_trait": get_trait_case, "clone": clone_case, "prefix_trait_unhashable": prefix_trait_unhashable_case}[case["family"]](case)
+    out = {"get_trait": get_trait_case, "clone": clone_case, "prefix_trait_unhashable": prefix_trait_unhashable_case,
+           "prefix_cache_inherited": prefix_cache_inherited_case}[case["family"]](case)
     print(json.dumps(out, default=repr))
 
 
